@@ -27,7 +27,7 @@ const PROPS: &[PropSpec] = &[
     PropSpec { id: "C06", engine: "dsim", profile: "fail", level: "exploration", quick_runs: 2000, thorough_runs: 40000, also: &[] },
     PropSpec { id: "C07", engine: "dsim", profile: "txn", level: "exploration", quick_runs: 2000, thorough_runs: 40000, also: &[] },
     PropSpec { id: "C08", engine: "dsim", profile: "iso", level: "exploration", quick_runs: 1500, thorough_runs: 30000, also: &[] },
-    PropSpec { id: "C09", engine: "dsim", profile: "cons", level: "exploration", quick_runs: 2000, thorough_runs: 40000, also: &[] },
+    PropSpec { id: "C09", engine: "dsim", profile: "cons", level: "exploration", quick_runs: 2000, thorough_runs: 40000, also: &["C06", "C07"] },
     PropSpec { id: "C10", engine: "dsim", profile: "index", level: "exploration", quick_runs: 1500, thorough_runs: 30000, also: &[] },
     PropSpec { id: "C11", engine: "dsim", profile: "values", level: "exploration", quick_runs: 1500, thorough_runs: 30000, also: &[] },
     PropSpec { id: "C12", engine: "dsim", profile: "autoinc", level: "exploration", quick_runs: 2000, thorough_runs: 40000, also: &[] },
@@ -88,7 +88,7 @@ fn cmd_check(args: &[String]) -> i32 {
         runs,
         workers: workers(),
         run_timeout: Duration::from_millis(env_u64("VSIM_RUN_TIMEOUT_MS").unwrap_or(if tier == Tier::Thorough { 420_000 } else if ps.profile == "crash" { 240_000 } else { 120_000 })),
-        batch_budget: Duration::from_secs(if tier == Tier::Thorough { 1500 } else { 150 }),
+        batch_budget: Duration::from_secs(if tier == Tier::Thorough { 900 } else { 150 }),
         level: ps.level.to_string(),
         also_owns: ps.also.iter().map(|x| x.to_string()).collect(),
         min_budget_runs: if tier == Tier::Thorough { 600 } else { 300 },
